@@ -832,6 +832,8 @@ class Interp:
                 zero = pred_not(self.pred_of(b))
             if zero is not None and zero[0] != "formula" and self.truth(PredV(zero) if zero[0] != "const" else Const(zero[1])):
                 raise RaiseSig(ExcV("ZeroDivisionError", ("divisor", desc(b))), node)
+        if op == "Pow" and isinstance(a, Const) and isinstance(b, LinV) and F.lin_is_const(b.lin):
+            b = Const(b.lin[1])  # (2 ** len(xs) for a list of known length)
         if isinstance(a, Const) and isinstance(b, Const):
             try:
                 x, y = a.value, b.value
